@@ -7148,6 +7148,7 @@ type arelspec = { rs_parent : char list; rs_items : aitem list }
 type avalue =
 | AvInt of char list
 | AvText of char list
+| AvDouble of char list * char list
 
 type adomain =
 | ADiscrete of avalue list
@@ -7213,6 +7214,7 @@ let rec afm_relspecs = function
 
 let afm_value = function
 | VInt z0 -> Ok (AvInt (z_to_string z0))
+| VFloat r -> Ok (AvDouble (r, r))
 | VStr s -> Ok (AvText s)
 | _ -> Err OtherExn
 
@@ -7335,6 +7337,7 @@ let afm_render_item = function
 let afm_render_value = function
 | AvInt t -> t
 | AvText t -> t
+| AvDouble (t, _) -> t
 
 (** val afm_render : adoc -> char list **)
 
@@ -7507,6 +7510,7 @@ let afm_value_aval = function
               | Ok z0 -> Ok (VInt z0)
               | Err e -> Err e)
 | AvText t -> Ok (VStr t)
+| AvDouble (_, r) -> Ok (VFloat r)
 
 (** val afm_read_expr : char list -> aexpr -> node result **)
 
@@ -10749,6 +10753,7 @@ let d_aitem = function
 let e_avalue = function
 | AvInt t -> e_tag ('v'::('i'::[])) ((SStr t) :: [])
 | AvText t -> e_tag ('v'::('t'::[])) ((SStr t) :: [])
+| AvDouble (t, r) -> e_tag ('v'::('d'::[])) ((SStr t) :: ((SStr r) :: []))
 
 (** val d_avalue : sexp -> avalue option **)
 
@@ -10769,7 +10774,13 @@ let d_avalue = function
                  if eqb0 k ('v'::('i'::[]))
                  then Some (AvInt t)
                  else Some (AvText t)
-               | _ :: _ -> None)
+               | s2 :: l2 ->
+                 (match s2 with
+                  | SStr r ->
+                    (match l2 with
+                     | [] -> Some (AvDouble (t, r))
+                     | _ :: _ -> None)
+                  | _ -> None))
             | _ -> None))
       | _ -> None))
 | _ -> None
